@@ -6,6 +6,8 @@
   `Spec.Md5`) and on the differential `md5` stream.
 -/
 import Rl2tp.Proofs.HideSpec
+import Rl2tp.Proofs.SpecAvp
+import Rl2tp.Proofs.RevealTotal
 import Rl2tp.Proofs.Image
 import Rl2tp.Spec.Md5
 import Rl2tp.Proofs.InPlace
@@ -54,6 +56,53 @@ theorem reveal_eq_rfc (hmd5 : ∀ x, (md5 x).length = 16) (t : UInt16) (v secret
           | .fault f => .error f := by
   rw [reveal_hidden_eq md5 hmd5, revealPlain_eq_spec]
   rfl
+
+/-- what `reveal` answers, seen as "the AVP, or refused" -/
+def viewReveal : Except Fault (Except DErr AVP) → Option AVP
+  | .ok (.ok a) => some a
+  | _ => none
+
+/-- `reveal` against the independent reference `Spec.Hide.reveal` (block-indexed decryption, the positional payload
+    table of `Spec.Avp`, nothing of the model's decoders): the same AVP, or refused, for every hidden value, secret and
+    random vector -/
+theorem reveal_eq_reference (hmd5 : ∀ x, (md5 x).length = 16) (t : UInt16) (v secret : Bytes) (rv : UInt32) :
+    viewReveal (reveal md5 (.hidden t v) secret rv) = Spec.Hide.reveal md5 t secret rv v := by
+  rw [reveal_eq_rfc md5 hmd5]
+  unfold Spec.Hide.reveal
+  by_cases h0 : v.length = 0
+  · simp [h0, viewReveal]
+  by_cases h1 : v.length % 16 ≠ 0
+  · simp [h0, h1, viewReveal]
+  have hnot : ¬ (v.length = 0 ∨ v.length % 16 ≠ 0) := by
+    intro h; rcases h with h | h
+    · exact h0 h
+    · exact h1 h
+  simp only [if_neg h0, if_neg h1, if_neg hnot]
+  have hlen : (decrypted md5 t secret rv v).length = v.length := by
+    rw [← revealPlain_eq_spec]; exact revealPlain_length md5 hmd5 t v secret rv (by omega)
+  have hw : word16Of (decrypted md5 t secret rv v) = Spec.u16At (decrypted md5 t secret rv v) 0 := by
+    have : 2 ≤ (decrypted md5 t secret rv v).length := by omega
+    obtain ⟨x, y, r, hr⟩ := exists_cons2 (s := decrypted md5 t secret rv v) this
+    rw [hr]; rfl
+  simp only [hw]
+  generalize hL : (Spec.u16At (decrypted md5 t secret rv v) 0) = total
+  by_cases c1 : total.toNat < 6 ∨ total.toNat > 1023
+  · have c1' : total.toNat < 6 ∨ total.toNat > 1023 ∨ total.toNat - 6 > v.length - 2 := by
+      rcases c1 with c | c
+      · exact .inl c
+      · exact .inr (.inl c)
+    simp only [if_pos c1, if_pos c1']; rfl
+  by_cases c2 : total.toNat - 6 > v.length - 2
+  · simp only [if_neg c1, if_pos c2, if_pos (show total.toNat < 6 ∨ total.toNat > 1023 ∨ total.toNat - 6 > v.length - 2 from .inr (.inr c2))]
+    rfl
+  have c3 : ¬ (total.toNat < 6 ∨ total.toNat > 1023 ∨ total.toNat - 6 > v.length - 2) := by
+    intro h; rcases h with h | h | h
+    · exact c1 (.inl h)
+    · exact c1 (.inr h)
+    · exact c2 h
+  simp only [if_neg c1, if_neg c2, if_neg c3]
+  rw [← decodeAvp_view]
+  cases (decodeAvp t : M Bytes DErr AVP) (List.take (total.toNat - 6) (List.drop 2 (decrypted md5 t secret rv v))) <;> rfl
 
 /-- on the wire a hidden AVP carries the H bit and its attribute type in clear; other AVPs do not carry H -/
 theorem encode_hidden_sets_H (a : AVP) :
